@@ -31,15 +31,17 @@ def len_class(alg, n):
     return "big"
 
 
-def run_one(drv, alg, fam, seed, nops, maxlen, reject_pct, poison=0, keep=False, model=None):
+def run_one(drv, alg, fam, seed, nops, maxlen, reject_pct, poison=0, keep=False, model=None, env=None):
     if model is None:
         model = fam != 'pub'
     d = vlib.scratch()
-    tag = "%s_%s_%d_%d_%d" % (alg, fam, seed, reject_pct, poison)
+    tag = "%s_%s_%d_%d_%d_%s" % (alg, fam, seed, reject_pct, poison, "_".join("%s%s" % kv for kv in sorted((env or {}).items())))
     ops = os.path.join(d, "ops_" + tag)
     res = os.path.join(d, "res_" + tag)
     args = [drv, alg, fam, str(seed), str(nops), str(maxlen), str(reject_pct), ops, res, str(poison)]
-    r = subprocess.run(args, capture_output=True, text=True)
+    e = dict(os.environ)
+    e.update(env or {})
+    r = subprocess.run(args, capture_output=True, text=True, env=e)
     out = {"alg": alg, "fam": fam, "args": args[1:7] + [str(poison)], "exit": r.returncode, "stderr": r.stderr[-500:]}
     if r.returncode not in (0, 3):
         out["crash"] = True
@@ -79,7 +81,7 @@ def run_one(drv, alg, fam, seed, nops, maxlen, reject_pct, poison=0, keep=False,
         elif l.startswith("F"):
             k = "F ret" if not rl.startswith("r=-") else "F null"
             hist[k] = hist.get(k, 0) + 1
-    out.update({"monitors": monitors, "diffs": diffs, "ops": len(impl_lines), "hist": hist, "rejected": nrej,
+    out.update({"monitors": monitors, "diffs": diffs, "ops": len(impl_lines), "hist": hist, "rejected": nrej, "impl_lines": impl_lines,
                 "sample": [oplines[i] + " -> " + impl_lines[i][:120] for i in range(1, min(4, len(impl_lines)))]})
     if not keep:
         for p in (ops, res):
@@ -90,11 +92,11 @@ def run_one(drv, alg, fam, seed, nops, maxlen, reject_pct, poison=0, keep=False,
     return out
 
 
-def sweep(chk, drv, nops, maxlen, reject_pct, seeds, families=None, poison=0):
+def sweep(chk, drv, nops, maxlen, reject_pct, seeds, families=None, poison=0, env=None):
     fams = families or FAMILIES
     jobs = [(a, f, s) for (a, f) in fams for s in seeds]
     with ThreadPoolExecutor(max_workers=16) as ex:
-        results = list(ex.map(lambda j: run_one(drv, j[0], j[1], j[2], nops, maxlen, reject_pct, poison), jobs))
+        results = list(ex.map(lambda j: run_one(drv, j[0], j[1], j[2], nops, maxlen, reject_pct, poison, env=env), jobs))
     return results
 
 
